@@ -520,6 +520,83 @@ func (m *mirror) sfileDelete(id uint64) {
 
 func (m *mirror) drop(id uint64) { m.emit(fmt.Sprintf("x %d", id)); m.sfileDelete(id) }
 
+// crashCase: a history, then one operation in flight when the process dies: only a prefix
+// of the log entries it appended survives (cut at entry k plus `extra` bytes).
+func crashCase(r *h.Rand, uni []genSeries, k, extra int) []string {
+	m := newMirror(1)
+	m.emit("cfg 1")
+	tracked := map[uint64]bool{}
+	var created []uint64
+	byID := map[uint64]genSeries{}
+	mk := func() {
+		g := h.Pick(r, uni[:9]) // measurement m only: drops of the last series matter
+		if r.Chance(0.2) {
+			g = h.Pick(r, uni)
+		}
+		id := m.create(g)
+		tracked[id] = true
+		created = append(created, id)
+		byID[id] = g
+	}
+	for i, n := 0, 1+r.Intn(3); i < n; i++ {
+		mk()
+		if r.Chance(0.3) {
+			m.structural(r)
+		}
+	}
+	if r.Chance(0.3) && len(created) > 1 {
+		id := created[0]
+		m.drop(id)
+		delete(tracked, id)
+	}
+	m.sweep()
+	// the operation in flight
+	var inflight uint64
+	switch x := r.Intn(10); {
+	case x < 3:
+		mk()
+	case x < 8:
+		var live []uint64
+		for id := range tracked {
+			live = append(live, id)
+		}
+		sort.Slice(live, func(i, j int) bool { return live[i] < live[j] })
+		if len(live) == 0 {
+			mk()
+		} else {
+			inflight = h.Pick(r, live)
+			m.emit(fmt.Sprintf("xi %d", inflight))
+			delete(tracked, inflight)
+		}
+	default:
+		m.emit("xmi m")
+		for id := range tracked {
+			if m.nameOf[id] == "m" {
+				delete(tracked, id)
+			}
+		}
+	}
+	m.emit(fmt.Sprintf("crash 0 %d %d", k, extra))
+	m.sweep()
+	// life goes on: the same or other series are written again, files are rolled and compacted
+	for i, n := 0, r.Intn(4); i < n; i++ {
+		switch r.Intn(4) {
+		case 0:
+			if inflight != 0 {
+				m.create(byID[inflight])
+			} else {
+				mk()
+			}
+		case 1:
+			mk()
+		default:
+			m.structural(r)
+		}
+		m.sweep()
+	}
+	return m.ops
+}
+
 func (m *mirror) dropMeasurement(name string, tracked map[uint64]bool) {
 	m.emit("xm " + name)
 	for id := range tracked {
@@ -706,6 +783,18 @@ func gen(r *h.Rand, tier string, emit func([]string)) {
 		}
 		m.sweep()
 		emit(m.ops)
+	}
+	// crashes while an operation is in flight: every entry boundary and bytes inside entries
+	nCrash := 6
+	if tier == "thorough" {
+		nCrash = 40
+	}
+	for k := 0; k <= 6; k++ {
+		for _, extra := range []int{0, 1, 5, 11} {
+			for c := 0; c < nCrash; c++ {
+				emit(crashCase(r, uni, k, extra))
+			}
+		}
 	}
 }
 
